@@ -9,6 +9,7 @@ mod exprm;
 mod icase;
 mod ihex;
 mod isa;
+mod mc;
 mod report;
 mod sut;
 
